@@ -613,6 +613,7 @@ pub fn oracle_c12(with_shx: bool, dest: &str, fault: Fault, persistent: bool, op
     let r = catch_unwind(AssertUnwindSafe(move || -> Result<bool, (String, String)> {
         let mut w = if with_shx { ShapeWriter::with_shx(s2, x2) } else { ShapeWriter::new(s2) };
         let mut failed_call: Option<usize> = None;
+        // the property's retry clause: a finalize failed and the NEXT call (or the drop) is finalize again
         let mut failed_was_finalize = false;
         for (i, b) in built.iter().enumerate() {
             let before = f2.0.borrow().faults_hit;
@@ -626,7 +627,7 @@ pub fn oracle_c12(with_shx: bool, dest: &str, fault: Fault, persistent: bool, op
                 (true, Err(Error::IoError(_))) => {
                     if failed_call.is_none() {
                         failed_call = Some(i);
-                        failed_was_finalize = b.is_none();
+                        failed_was_finalize = b.is_none() && built.get(i + 1).map(|n| n.is_none()).unwrap_or(true);
                     }
                 }
                 (true, Err(e)) => return Err(("fault-wrong-error".into(), format!("call {}: destination failure surfaced as {}", i, show_err(e)))),
